@@ -369,6 +369,7 @@ func (hs *serverHandshakeStateGM) doFullHandshake() error {
 		c.sendAlert(alertHandshakeFailure)
 		return err
 	}
+	skx = verifFaultSKE(c, skx)
 	if skx != nil {
 		hs.finishedHash.Write(skx.marshal())
 		if _, err := c.writeRecord(recordTypeHandshake, skx.marshal()); err != nil {
